@@ -363,7 +363,7 @@ class Gen:
         return any(c.search(name) for c in s.cut)
 
     # ---- whole closure
-    def emit(s, roots, extra_protos=(), after_prelude='', need_types=()):
+    def emit(s, roots, extra_protos=(), after_prelude='', need_types=(), after_protos=None):
         m = s.m
         todo = list(roots); done = {}; order = []
         while todo:
@@ -395,6 +395,7 @@ class Gen:
         out += [nm + ';' for nm in fw]
         out += s.struct_order
         out += protos
+        if after_protos: out.append(after_protos(s) if callable(after_protos) else after_protos)
         out += gl
         out.append(body)
         return '\n'.join(out) + '\n'
